@@ -1,0 +1,399 @@
+//! Verification hooks. Compiled only with `--cfg regress_verif` (and `std`).
+//!
+//! Nothing here changes what the engine computes. The hooks expose the compiled
+//! program as JSON, record one event per executor step into a thread-local sink,
+//! count steps against an optional fuel budget, and re-export a few internal
+//! functions so that an external harness can drive them directly.
+
+use crate::api::Regex;
+use crate::codepointset::{CodePointSet, Interval};
+use crate::insn::{CompiledRegex, Insn, StartPredicate};
+use crate::unicode;
+use std::cell::{Cell, RefCell};
+use std::fmt::Write;
+
+/// Which executor produced an event.
+pub const ENGINE_BACKTRACK: u8 = 0;
+pub const ENGINE_PIKE: u8 = 1;
+
+/// Event kinds.
+/// An attempt (top-level or lookaround body) begins.
+pub const EV_ENTER: u8 = 0;
+/// An instruction is about to be dispatched.
+pub const EV_INSN: u8 = 1;
+/// The backtracker resumed a choice point / the Pike VM dropped a failed thread.
+pub const EV_BACKTRACK: u8 = 2;
+/// An attempt finished; `ip` is 1 on success and 0 on failure.
+pub const EV_LEAVE: u8 = 3;
+
+/// One executor step.
+#[derive(Debug, Clone, Copy, PartialEq, Eq)]
+pub struct Event {
+    pub engine: u8,
+    pub kind: u8,
+    /// Instruction pointer (or the success flag for EV_LEAVE).
+    pub ip: u32,
+    /// Offset of the current position from the start of the input, in code units.
+    pub pos: u32,
+    /// Length of the backtrack stack (backtracker) or of the thread stack (Pike VM).
+    pub depth: u32,
+    /// True if the cursor runs forwards.
+    pub forward: bool,
+}
+
+/// What a recording session saw.
+#[derive(Debug, Clone, Default)]
+pub struct Recording {
+    pub events: Vec<Event>,
+    /// Number of EV_INSN events, whether or not they were stored.
+    pub steps: u64,
+    /// Largest backtrack/thread stack seen.
+    pub max_depth: u32,
+    /// Number of events that were dropped because the event limit was reached.
+    pub dropped: u64,
+}
+
+struct Sink {
+    rec: Recording,
+    store_events: bool,
+    max_events: usize,
+}
+
+thread_local! {
+    static SINK: RefCell<Option<Sink>> = const { RefCell::new(None) };
+    static FUEL: Cell<u64> = const { Cell::new(u64::MAX) };
+    static GATE: RefCell<Option<Box<dyn FnMut()>>> = const { RefCell::new(None) };
+}
+
+/// Message used by the fuel panic.
+pub const FUEL_PANIC: &str = "regress_verif: fuel exhausted";
+
+/// Start recording on this thread. `fuel` bounds the number of instruction
+/// dispatches; when it runs out the executor panics with `FUEL_PANIC`.
+pub fn begin(store_events: bool, max_events: usize, fuel: u64) {
+    SINK.with(|s| {
+        *s.borrow_mut() = Some(Sink {
+            rec: Recording::default(),
+            store_events,
+            max_events,
+        })
+    });
+    FUEL.with(|f| f.set(fuel));
+}
+
+/// Stop recording on this thread and return what was seen.
+pub fn end() -> Recording {
+    FUEL.with(|f| f.set(u64::MAX));
+    SINK.with(|s| s.borrow_mut().take())
+        .map(|s| s.rec)
+        .unwrap_or_default()
+}
+
+/// Install (or remove) a callback invoked before every instruction dispatch on
+/// this thread. A schedule replayer uses it to block the thread until its turn.
+pub fn set_gate(gate: Option<Box<dyn FnMut()>>) {
+    GATE.with(|g| *g.borrow_mut() = gate);
+}
+
+#[inline]
+pub(crate) fn event(engine: u8, kind: u8, ip: usize, pos: usize, depth: usize, forward: bool) {
+    if kind == EV_INSN {
+        // The gate is taken out while it runs so that it may itself use the hooks.
+        let gate = GATE.with(|g| g.borrow_mut().take());
+        if let Some(mut gate) = gate {
+            gate();
+            GATE.with(|g| {
+                let mut g = g.borrow_mut();
+                if g.is_none() {
+                    *g = Some(gate);
+                }
+            });
+        }
+    }
+    SINK.with(|s| {
+        if let Some(sink) = s.borrow_mut().as_mut() {
+            if kind == EV_INSN {
+                sink.rec.steps += 1;
+            }
+            sink.rec.max_depth = sink.rec.max_depth.max(depth as u32);
+            if sink.store_events {
+                if sink.rec.events.len() < sink.max_events {
+                    sink.rec.events.push(Event {
+                        engine,
+                        kind,
+                        ip: ip as u32,
+                        pos: pos as u32,
+                        depth: depth as u32,
+                        forward,
+                    });
+                } else {
+                    sink.rec.dropped += 1;
+                }
+            }
+        }
+    });
+    if kind == EV_INSN {
+        let left = FUEL.with(|f| {
+            let v = f.get();
+            if v != u64::MAX {
+                f.set(v.saturating_sub(1));
+            }
+            v
+        });
+        if left == 0 {
+            FUEL.with(|f| f.set(u64::MAX));
+            panic!("{}", FUEL_PANIC);
+        }
+    }
+}
+
+fn bytes_json(b: &[u8]) -> String {
+    let v: Vec<String> = b.iter().map(|x| x.to_string()).collect();
+    format!("[{}]", v.join(","))
+}
+
+fn clamp(n: usize) -> i64 {
+    if n == usize::MAX {
+        -1
+    } else {
+        n.min(1 << 30) as i64
+    }
+}
+
+fn insn_json(i: &Insn) -> String {
+    macro_rules! bs {
+        ($name:expr, $v:expr) => {
+            format!("{{\"op\":\"{}\",\"bytes\":{}}}", $name, bytes_json(&$v[..]))
+        };
+    }
+    match i {
+        Insn::Goal => "{\"op\":\"Goal\"}".into(),
+        Insn::JustFail => "{\"op\":\"JustFail\"}".into(),
+        Insn::Char(c) => format!("{{\"op\":\"Char\",\"c\":{}}}", c),
+        Insn::StartOfLine { multiline } => {
+            format!("{{\"op\":\"StartOfLine\",\"multiline\":{}}}", multiline)
+        }
+        Insn::EndOfLine { multiline } => {
+            format!("{{\"op\":\"EndOfLine\",\"multiline\":{}}}", multiline)
+        }
+        Insn::MatchAny => "{\"op\":\"MatchAny\"}".into(),
+        Insn::MatchAnyExceptLineTerminator => "{\"op\":\"MatchAnyExceptLT\"}".into(),
+        Insn::EnterLoop(f) => format!(
+            "{{\"op\":\"EnterLoop\",\"id\":{},\"min\":{},\"max\":{},\"greedy\":{},\"exit\":{}}}",
+            f.loop_id,
+            clamp(f.min_iters),
+            clamp(f.max_iters),
+            f.greedy,
+            f.exit
+        ),
+        Insn::LoopAgain { begin } => format!("{{\"op\":\"LoopAgain\",\"begin\":{}}}", begin),
+        Insn::Loop1CharBody {
+            min_iters,
+            max_iters,
+            greedy,
+        } => format!(
+            "{{\"op\":\"Loop1CharBody\",\"min\":{},\"max\":{},\"greedy\":{}}}",
+            clamp(*min_iters),
+            clamp(*max_iters),
+            greedy
+        ),
+        Insn::Jump { target } => format!("{{\"op\":\"Jump\",\"target\":{}}}", target),
+        Insn::Alt { secondary } => format!("{{\"op\":\"Alt\",\"secondary\":{}}}", secondary),
+        Insn::BeginCaptureGroup(g) => format!("{{\"op\":\"BeginCG\",\"g\":{}}}", g),
+        Insn::EndCaptureGroup(g) => format!("{{\"op\":\"EndCG\",\"g\":{}}}", g),
+        Insn::ResetCaptureGroup(g) => format!("{{\"op\":\"ResetCG\",\"g\":{}}}", g),
+        Insn::BackRef { group, icase } => {
+            format!("{{\"op\":\"BackRef\",\"g\":{},\"icase\":{}}}", group, icase)
+        }
+        Insn::Bracket(idx) => format!("{{\"op\":\"Bracket\",\"idx\":{}}}", idx),
+        Insn::AsciiBracket(bm) => {
+            use crate::bytesearch::ByteSet;
+            let v: Vec<u8> = (0u8..=127).filter(|b| bm.contains(*b)).collect();
+            format!("{{\"op\":\"ByteSet\",\"bytes\":{}}}", bytes_json(&v))
+        }
+        Insn::Lookahead {
+            negate,
+            start_group,
+            end_group,
+            continuation,
+        } => format!(
+            "{{\"op\":\"Look\",\"behind\":false,\"negate\":{},\"sg\":{},\"eg\":{},\"cont\":{}}}",
+            negate, start_group, end_group, continuation
+        ),
+        Insn::Lookbehind {
+            negate,
+            start_group,
+            end_group,
+            continuation,
+        } => format!(
+            "{{\"op\":\"Look\",\"behind\":true,\"negate\":{},\"sg\":{},\"eg\":{},\"cont\":{}}}",
+            negate, start_group, end_group, continuation
+        ),
+        Insn::WordBoundary { invert } => format!(
+            "{{\"op\":\"WordBoundary\",\"invert\":{},\"uicase\":false}}",
+            invert
+        ),
+        Insn::WordBoundaryUnicodeICase { invert } => format!(
+            "{{\"op\":\"WordBoundary\",\"invert\":{},\"uicase\":true}}",
+            invert
+        ),
+        Insn::CharSet(cs) => {
+            let v: Vec<String> = cs.iter().map(|c| c.to_string()).collect();
+            format!("{{\"op\":\"CharSet\",\"chars\":[{}]}}", v.join(","))
+        }
+        Insn::ByteSet2(b) => bs!("ByteSet", b.0),
+        Insn::ByteSet3(b) => bs!("ByteSet", b.0),
+        Insn::ByteSet4(b) => bs!("ByteSet", b.0),
+        Insn::ByteSeq1(v) => bs!("ByteSeq", v),
+        Insn::ByteSeq2(v) => bs!("ByteSeq", v),
+        Insn::ByteSeq3(v) => bs!("ByteSeq", v),
+        Insn::ByteSeq4(v) => bs!("ByteSeq", v),
+        Insn::ByteSeq5(v) => bs!("ByteSeq", v),
+        Insn::ByteSeq6(v) => bs!("ByteSeq", v),
+        Insn::ByteSeq7(v) => bs!("ByteSeq", v),
+        Insn::ByteSeq8(v) => bs!("ByteSeq", v),
+        Insn::ByteSeq9(v) => bs!("ByteSeq", v),
+        Insn::ByteSeq10(v) => bs!("ByteSeq", v),
+        Insn::ByteSeq11(v) => bs!("ByteSeq", v),
+        Insn::ByteSeq12(v) => bs!("ByteSeq", v),
+        Insn::ByteSeq13(v) => bs!("ByteSeq", v),
+        Insn::ByteSeq14(v) => bs!("ByteSeq", v),
+        Insn::ByteSeq15(v) => bs!("ByteSeq", v),
+        Insn::ByteSeq16(v) => bs!("ByteSeq", v),
+    }
+}
+
+fn start_pred_json(sp: &StartPredicate) -> String {
+    match sp {
+        StartPredicate::Arbitrary => "{\"kind\":\"Arbitrary\"}".to_string(),
+        StartPredicate::ByteSet1(b) => {
+            format!("{{\"kind\":\"ByteSet\",\"bytes\":{}}}", bytes_json(b))
+        }
+        StartPredicate::ByteSet2(b) => {
+            format!("{{\"kind\":\"ByteSet\",\"bytes\":{}}}", bytes_json(b))
+        }
+        StartPredicate::ByteSet3(b) => {
+            format!("{{\"kind\":\"ByteSet\",\"bytes\":{}}}", bytes_json(b))
+        }
+        StartPredicate::ByteSeq(f) => {
+            format!("{{\"kind\":\"ByteSeq\",\"bytes\":{}}}", bytes_json(f.needle()))
+        }
+        StartPredicate::ByteBracket(bm) => {
+            let v: Vec<u8> = (0u8..=255).filter(|b| bm.contains(*b)).collect();
+            format!("{{\"kind\":\"ByteSet\",\"bytes\":{}}}", bytes_json(&v))
+        }
+        StartPredicate::StartAnchored => "{\"kind\":\"StartAnchored\"}".to_string(),
+    }
+}
+
+fn program_json(cr: &CompiledRegex) -> String {
+    let mut s = String::new();
+    s.push_str("{\"insns\":[");
+    for (i, insn) in cr.insns.iter().enumerate() {
+        if i > 0 {
+            s.push(',');
+        }
+        s.push_str(&insn_json(insn));
+    }
+    s.push_str("],\"brackets\":[");
+    for (i, b) in cr.brackets.iter().enumerate() {
+        if i > 0 {
+            s.push(',');
+        }
+        let ivs: Vec<String> = b
+            .cps
+            .intervals()
+            .iter()
+            .map(|iv| format!("[{},{}]", iv.first, iv.last))
+            .collect();
+        write!(s, "{{\"invert\":{},\"ivs\":[{}]}}", b.invert, ivs.join(",")).unwrap();
+    }
+    let names: Vec<String> = cr
+        .group_names
+        .iter()
+        .map(|n| {
+            let cps: Vec<String> = n.chars().map(|c| (c as u32).to_string()).collect();
+            format!("[{}]", cps.join(","))
+        })
+        .collect();
+    write!(
+        s,
+        "],\"start_pred\":{},\"loops\":{},\"groups\":{},\"names\":[{}],\"icase\":{},\"multiline\":{},\"dot_all\":{},\"unicode\":{},\"unicode_sets\":{}}}",
+        start_pred_json(&cr.start_pred),
+        cr.loops,
+        cr.groups,
+        names.join(","),
+        cr.flags.icase,
+        cr.flags.multiline,
+        cr.flags.dot_all,
+        cr.flags.unicode,
+        cr.flags.unicode_sets
+    )
+    .unwrap();
+    s
+}
+
+impl Regex {
+    /// The compiled program as JSON: instructions, brackets, start predicate, counts, flags.
+    pub fn verif_program_json(&self) -> String {
+        program_json(self.verif_cr())
+    }
+
+    /// The same program with the start predicate replaced by `Arbitrary`.
+    pub fn verif_with_arbitrary_start_pred(&self) -> Regex {
+        let mut cr = self.verif_cr().clone();
+        cr.start_pred = StartPredicate::Arbitrary;
+        Regex::from(cr)
+    }
+}
+
+/// `Canonicalize` as the matcher applies it to one code point.
+pub fn fold_code_point(c: u32, unicode: bool) -> u32 {
+    unicode::fold_code_point(c, unicode)
+}
+
+/// The code points a case-insensitive literal `c` is expanded to at compile time.
+pub fn expand_code_point(c: u32, icase: bool, unicode: bool) -> Vec<u32> {
+    unicode::expand_code_point(c, icase, unicode)
+}
+
+/// A `CodePointSet` that can be driven from outside the crate.
+#[derive(Debug, Clone, Default)]
+pub struct VerifCodePointSet(CodePointSet);
+
+impl VerifCodePointSet {
+    pub fn new() -> Self {
+        Self(CodePointSet::new())
+    }
+    pub fn add(&mut self, first: u32, last: u32) {
+        self.0.add(Interval { first, last })
+    }
+    pub fn add_one(&mut self, cp: u32) {
+        self.0.add_one(cp)
+    }
+    pub fn add_set(&mut self, rhs: &VerifCodePointSet) {
+        self.0.add_set(rhs.0.clone())
+    }
+    pub fn remove(&mut self, rhs: &VerifCodePointSet) {
+        self.0.remove(rhs.0.intervals())
+    }
+    pub fn intersect(&mut self, rhs: &VerifCodePointSet) {
+        self.0.intersect(rhs.0.intervals())
+    }
+    pub fn inverted(&self) -> VerifCodePointSet {
+        VerifCodePointSet(self.0.inverted())
+    }
+    pub fn inverted_interval_count(&self) -> usize {
+        self.0.inverted_interval_count()
+    }
+    pub fn contains(&self, cp: u32) -> bool {
+        self.0.contains(cp)
+    }
+    pub fn intervals(&self) -> Vec<(u32, u32)> {
+        self.0.intervals().iter().map(|iv| (iv.first, iv.last)).collect()
+    }
+    /// Closure of the set under the `u`-mode case folding, as used for classes.
+    pub fn add_icase_code_points(&self) -> VerifCodePointSet {
+        VerifCodePointSet(unicode::add_icase_code_points(self.0.clone()))
+    }
+}
